@@ -87,12 +87,18 @@ pub enum Outcome {
     Err(Error),
     Panic(String),
     Timeout,
+    /// abandoned by the watchdog because the stack pointer exceeded the configured limit
+    StackLimit,
 }
 
 pub struct Session {
     pub vm: Vm,
     pub out: Rc<RefCell<Vec<(&'static str, Cell)>>>,
     pub dead: bool,
+    /// the watchdog abandons an evaluation whose stack pointer exceeds this (reported as "stacklimit")
+    pub sp_limit: Rc<std::cell::Cell<usize>>,
+    /// instruction budget of one evaluation (watchdog)
+    pub instr_limit: Rc<std::cell::Cell<u64>>,
 }
 
 fn xorshift(s: &mut u64) -> u64 {
@@ -115,13 +121,14 @@ impl Session {
             }
             out.borrow_mut().clear();
         }
-        Session { vm, out, dead: false }
+        Session { vm, out, dead: false, sp_limit: Rc::new(std::cell::Cell::new(usize::MAX)), instr_limit: Rc::new(std::cell::Cell::new(INSTR_LIMIT)) }
     }
 
     pub fn install_sched(&mut self, sched: &Sched) {
-        let limit = INSTR_LIMIT;
+        let limit = self.instr_limit.clone();
         let mut count: u64 = 0;
         let sched = sched.clone();
+        let sp_limit = self.sp_limit.clone();
         let mut rng = match sched {
             Sched::Random(seed, _) => seed | 1,
             _ => 1,
@@ -131,9 +138,13 @@ impl Session {
                 return false;
             }
             count += 1;
-            if count > limit {
+            if count > limit.get() {
                 count = 0;
                 panic!("verif-timeout");
+            }
+            if _vm.verif_stack().get_sp() > sp_limit.get() {
+                count = 0;
+                panic!("verif-stacklimit");
             }
             match sched {
                 Sched::None => false,
@@ -200,6 +211,8 @@ impl Session {
                 };
                 if msg == "verif-timeout" {
                     Outcome::Timeout
+                } else if msg == "verif-stacklimit" {
+                    Outcome::StackLimit
                 } else {
                     Outcome::Panic(msg)
                 }
@@ -226,6 +239,7 @@ pub fn outcome_json(o: &Outcome) -> Value {
         }
         Outcome::Panic(msg) => json!({"r":"panic","msg":msg}),
         Outcome::Timeout => json!({"r":"timeout"}),
+        Outcome::StackLimit => json!({"r":"stacklimit"}),
     }
 }
 
